@@ -55,12 +55,12 @@ var pagerFamilies = []pagerFamily{
 }
 
 var pagerItemKinds = []wc{{"link", 50}, {"plain", 8}, {"decorated", 5}, {"js", 7}, {"empty", 5}, {"offsite", 5}, {"mailto", 3}, {"malformed", 3},
-	{"pattern2", 5}, {"queryonly", 6}, {"fragment", 2}, {"lookalike", 3}, {"userinfo", 3}, {"schemerel", 3}, {"upperhost", 2}, {"relative", 5}, {"otherscheme", 2}, {"padded", 4}, {"docrel", 5}, {"withfragment", 4}, {"schemerel-offsite", 3}, {"gap", 3}}
+	{"pattern2", 5}, {"queryonly", 6}, {"fragment", 2}, {"lookalike", 3}, {"userinfo", 3}, {"schemerel", 3}, {"upperhost", 2}, {"relative", 5}, {"otherscheme", 2}, {"padded", 4}, {"docrel", 5}, {"withfragment", 4}, {"schemerel-offsite", 3}, {"gap", 3}, {"unicodehost", 4}}
 
 func genPager(t *rapid.T) pagerPage {
 	g := newG(t, articleProfile())
 	scheme := g.pick("pscheme", "http", "https")
-	host := g.pick("phost", "example.com", "www.example.org", "news.site.test:8080", "Example.COM")
+	host := g.pick("phost", "example.com", "www.example.org", "news.site.test:8080", "Example.COM", "wiki.example.com")
 	base := scheme + "://" + host
 	fam := pagerFamilies[g.intn(0, len(pagerFamilies)-1, "fam")]
 	fam2 := pagerFamilies[g.intn(0, len(pagerFamilies)-1, "fam2")]
@@ -155,6 +155,14 @@ func genPager(t *rapid.T) pagerPage {
 			return fam.link(scheme+"://"+strings.ToLower(strings.Split(host, ":")[0])+".evil.net", i)
 		case "userinfo":
 			return fam.link(scheme+"://"+strings.ToLower(strings.Split(host, ":")[0])+"@evil.net", i)
+		case "unicodehost":
+			// another host: one "i" of the page's host is U+0130 (capital I with dot), which is no case
+			// variant of "i" in host names although strings.ToLower maps it there
+			h := strings.ToLower(host)
+			if j := strings.Index(h, "i"); j >= 0 {
+				return fam.link(scheme+"://"+h[:j]+"\u0130"+h[j+1:], i)
+			}
+			return fam.link(scheme+"://"+otherHost, i)
 		case "schemerel":
 			return fam.link("//"+host, i)
 		case "upperhost":
